@@ -178,9 +178,12 @@ def scn_joint(sample_shape, comps):
         models = []
         tensors = []
         for k, extra in enumerate(comps):
-            extra = tuple(extra)
-            t = mk.real("lp%d" % k, sample_shape + extra)
-            tensors.append((t, extra))
+            # a component spec starting with "u" is UNBATCHED: it has no sample dimensions of its own
+            unb = len(extra) > 0 and extra[0] == "u"
+            extra = tuple(extra[1:]) if unb else tuple(extra)
+            own = () if unb else sample_shape
+            t = mk.real("lp%d" % k, own + extra)
+            tensors.append((t, extra, unb))
 
             class Comp(CallableModel):
                 def __init__(self, id_, t):
@@ -191,7 +194,7 @@ def scn_joint(sample_shape, comps):
                     return self.t
 
                 def _sample_shape(self):
-                    return torch.Size(sample_shape)
+                    return torch.Size(self.own)
 
                 def handle_parameter_changed(self, *a):
                     pass
@@ -199,7 +202,9 @@ def scn_joint(sample_shape, comps):
                 @classmethod
                 def from_json(cls, data, dic):
                     raise NotImplementedError
-            models.append(Comp("c%d" % k, t))
+            cm = Comp("c%d" % k, t)
+            cm.own = own
+            models.append(cm)
         joint = JointDistributionModel("j", models)
         try:
             val = joint()
@@ -210,9 +215,9 @@ def scn_joint(sample_shape, comps):
             spec = []
             for s in itertools.product(*[range(b) for b in sample_shape]):
                 tot = 0
-                for t, extra in tensors:
+                for t, extra, unb in tensors:
                     for ix in itertools.product(*[range(e) for e in extra]):
-                        tot = tot + el(t, s + ix)
+                        tot = tot + el(t, (() if unb else s) + ix)
                 spec.append(tot)
             cl.append(("eq", "joint[s]_is_sum_of_components_at_s", val, spec))
         return cl
@@ -316,7 +321,8 @@ def obligations(tier, seed):
         a2 = lambda bb: ("((A,B),C);", ["A", "B", "C"], ["AC", "CG", "GT"], [0.0, 1.0, 0.0], "time", "strict", "constant", 1, False, True, bb, "JC69")
         add("C10.likelihood.model[time,strict,batch=%s]" % (b,), "C01", "scn_model", a2(b), a2(()), "model_loglik_is_marginal", b)
     # joint distribution with abstract components
-    comp_sets = [[()], [(), ()], [(1,)], [(), (1,)], [(2,)], [(), (3,)], [(2, 2)], [(), (1,), (3,)]]
+    comp_sets = [[()], [(), ()], [(1,)], [(), (1,)], [(2,)], [(), (3,)], [(2, 2)], [(), (1,), (3,)],
+                 [(), ("u",)], [(), ("u", 1)], [(), ("u", 3)], [(1,), ("u", 2)], [(), ("u", 2, 2)], [(2,), ("u",), ("u", 4)]]
     for b in [(2,), (3,), (2, 3)] + ([(1,), (4,), (5,), (3, 3)] if tier == "thorough" else []):
         for cs in comp_sets:
             obs.append(scenario_ob("C10", "C10.joint[sample=%s,components=%s]" % (b, cs), "V", "scn_joint", (b, cs),
